@@ -123,6 +123,7 @@ pub fn run_case(
         writeln!(t.out, "X {}", meta).unwrap();
     }
     let mut snap = subj.snapshot();
+    crate::subj::AUDIT_BAD.store(false, std::sync::atomic::Ordering::Relaxed);
     let _ = ledger_drain();
     let mut sample = String::new();
     let mut i = 0usize;
@@ -167,6 +168,15 @@ pub fn run_case(
                     join(&snap)
                 )
                 .unwrap();
+                if crate::subj::AUDIT_BAD.swap(false, std::sync::atomic::Ordering::Relaxed) {
+                    // the structural audit failed: the line above records it; the object is leaked, not used again
+                    t.out.flush().unwrap();
+                    std::mem::forget(subj);
+                    if t.samples.len() < 3 {
+                        t.samples.push(sample);
+                    }
+                    return None;
+                }
             }
             Err(_) => {
                 t.panics += 1;
